@@ -439,12 +439,27 @@ static void scenario_tag(void) {
   dump_arenas();
 }
 
+// the entry points WITHOUT the `_ex` out-parameter (they pass arena_id = NULL down): mi_reserve_os_memory, mi_manage_os_memory
+static void scenario_plainapi(void) {
+  const size_t before = mi_arena_get_count();
+  int err = mi_reserve_os_memory(2 * BLK, false /*commit*/, false /*large*/);
+  if (err != 0 || mi_arena_get_count() != before + 1) printf("T count %s reserve_failed 1\n", SCN);
+  uint8_t* scratch = map_noreserve(4 * BLK);
+  uint8_t* al = (uint8_t*)_mi_align_up((uintptr_t)scratch, BLK);
+  bool ok = mi_manage_os_memory(al, 2 * BLK, true /*committed*/, false /*large*/, true /*zero*/, -1);
+  if (!ok || mi_arena_get_count() != before + 2) printf("T count %s manage_failed 1\n", SCN);
+  // both arenas are shared: the default heap may use them
+  void* p = mi_malloc(3u << 20); if (p != NULL) { memset(p, 1, 4096); mi_free(p); } else printf("T count %s setup_failed 1\n", SCN);
+  printf("T count %s arenas_made %zu\n", SCN, mi_arena_get_count() - before);
+}
+
 // ------------------------------------------------------------------ driver
 typedef struct { const char* name; void (*fn)(void); int repeat_quick; int repeat_thorough; } scn_t;
 static const scn_t SCNS[] = {
   { "pure", scenario_pure, 1, 1 }, { "manage", scenario_manage, 1, 3 }, { "corpus", scenario_corpus, 1, 2 },
   { "spans", scenario_spans, 2, 6 }, { "onfree", scenario_onfree, 2, 6 }, { "tryreclaim", scenario_tryreclaim, 2, 6 },
   { "exhaust", scenario_exhaust, 2, 6 }, { "history", scenario_history, 4, 16 }, { "tag", scenario_tag, 1, 1 },
+  { "plainapi", scenario_plainapi, 1, 1 },
 };
 
 static void on_fatal(int sig) {
